@@ -647,12 +647,19 @@ func (w *stackWorld) evalStack(c Case) (fs fails, obs stackObs) {
 			obs.Out = res.Header
 		}
 	}()
+	fs = judgeStack(c.Dir, in, obs, e, w.id)
+	return
+}
+
+// judgeStack applies the reference model to one observed exchange on the stack: in is what was put in (request
+// headers for dir "req", response headers for "res"), obs what the stack made of it, e the request's environment.
+func judgeStack(dir string, in http.Header, obs stackObs, e envT, id identity) (fs fails) {
 	if obs.Panic != "" {
 		fs.add("panic", "panic: %s", obs.Panic)
 		return
 	}
 
-	if c.Dir == "res" {
+	if dir == "res" {
 		checkHopAndOthers(&fs, in, obs.Out, nil)
 		for name := range managed { // nothing is managed on the response side: everything else is untouched
 			if hopKind(name, in["Connection"]) == "" && !eqList(in[name], obs.Out[name]) {
@@ -668,12 +675,12 @@ func (w *stackWorld) evalStack(c Case) (fs fails, obs stackObs) {
 		return
 	}
 
-	loop := loopAt(in["Via"], w.id)
+	loop := loopAt(in["Via"], id)
 	bad := badCL(in["Content-Length"]) || badTE(in["Transfer-Encoding"])
 	if loop != 0 {
 		switch {
 		case !obs.Skip:
-			fs.add("loop_not_skipped", "Via %q names this instance (%s) but the round trip is not skipped (err=%q, Via out %q)", in["Via"], w.id.rb, obs.Err, obs.Out["Via"])
+			fs.add("loop_not_skipped", "Via %q names this instance (%s) but the round trip is not skipped (err=%q, Via out %q)", in["Via"], id.rb, obs.Err, obs.Out["Via"])
 		case obs.Err == "":
 			fs.add("loop_no_error", "Via %q names this instance, round trip skipped but ModifyRequest returned no error", in["Via"])
 		case obs.ResStatus != 400:
@@ -682,7 +689,7 @@ func (w *stackWorld) evalStack(c Case) (fs fails, obs stackObs) {
 		return
 	}
 	if obs.Skip {
-		fs.add("false_loop_skipped", "Via %q does not name this instance (%s) but the round trip is skipped", in["Via"], w.id.rb)
+		fs.add("false_loop_skipped", "Via %q does not name this instance (%s) but the round trip is skipped", in["Via"], id.rb)
 		return
 	}
 	if obs.ResStatus != 200 {
@@ -695,7 +702,7 @@ func (w *stackWorld) evalStack(c Case) (fs fails, obs stackObs) {
 		fs.add("spurious_error", "ModifyRequest returned %q", obs.Err)
 	}
 	checkHopAndOthers(&fs, in, obs.Out, nil)
-	checkRequestManaged(&fs, in, obs.Out, w.id, e.ver, e.ip, e.parsed.Scheme, e.parsed.Host, e.url, bad)
+	checkRequestManaged(&fs, in, obs.Out, id, e.ver, e.ip, e.parsed.Scheme, e.parsed.Host, e.url, bad)
 	return
 }
 
@@ -1157,6 +1164,7 @@ func headerString(h http.Header) string {
 // stackOut is what one stack shard (a worker process) reports.
 type stackOut struct {
 	Done                                              bool
+	ID                                                string // received-by of this worker's stack instance
 	Cases, Distinct, Nontrivial, Transitions, Failing int64
 	MinEvals                                          int64
 	States                                            []uint64
@@ -1184,6 +1192,7 @@ func stackShard(tier string, shard, n int, outFile string) {
 		write()
 		return
 	}
+	out.ID = w.id.rb
 	spaces := stackSpaces(tier)
 	memo := &sigMemo{m: map[string]memoEntry{}}
 	states := map[uint64]struct{}{}
@@ -1252,16 +1261,32 @@ func stackShard(tier string, shard, n int, outFile string) {
 	write()
 }
 
-func runStack(rep *lib.Report, tier string) {
+// covMu guards rep.Coverage and rep.Incomplete: the parts of the check run concurrently.
+var covMu sync.Mutex
+
+func setCov(rep *lib.Report, key string, v interface{}) {
+	covMu.Lock()
+	rep.Coverage[key] = v
+	covMu.Unlock()
+}
+
+func setIncomplete(rep *lib.Report, why string) {
+	covMu.Lock()
+	rep.Incomplete = why
+	covMu.Unlock()
+}
+
+// runStack returns the identities (received-by) of the stack instances of its worker processes.
+func runStack(rep *lib.Report, tier string) (ids []string) {
 	var descr []string
 	for _, s := range stackSpaces(tier) {
 		descr = append(descr, s.describe())
 	}
-	rep.Coverage["stack_spaces"] = descr
-	rep.Coverage["connection_configurations"] = connCount()
+	setCov(rep, "stack_spaces", descr)
+	setCov(rep, "connection_configurations", connCount())
 	dir, err := os.MkdirTemp("", "c14-stack-")
 	if err != nil {
-		rep.Incomplete = "cannot create temp dir: " + err.Error()
+		setIncomplete(rep, "cannot create temp dir: "+err.Error())
 		return
 	}
 	defer os.RemoveAll(dir)
@@ -1279,11 +1304,14 @@ func runStack(rep *lib.Report, tier string) {
 				tail = tail[:1500]
 			}
 			rep.Violate("stack:worker:crash", fmt.Sprintf("stack shard %d died (%v): %s", i, errs[i], tail), nil)
-			rep.Incomplete = "a stack shard died"
+			setIncomplete(rep, "a stack shard died")
 			continue
 		}
 		if so.Incomplete != "" {
-			rep.Incomplete = so.Incomplete
+			setIncomplete(rep, so.Incomplete)
+		}
+		if so.ID != "" {
+			ids = append(ids, so.ID)
 		}
 		rep.Count("stack_cases", so.Cases)
 		rep.Count("stack_distinct_cases", so.Distinct)
@@ -1313,6 +1341,7 @@ func runStack(rep *lib.Report, tier string) {
 		}
 	}
 	rep.Count("stack_states", int64(len(states)))
+	return
 }
 
 // ---------------------------------------------------------------------------------------------------
@@ -1605,9 +1634,19 @@ func (w *proxyWorld) refusedByParser(c Case) bool {
 func (w *proxyWorld) evalProxy(c Case) (fs fails, ex exchangeT) {
 	in := buildHeader(c, w.id)
 	id := strconv.FormatInt(atomic.AddInt64(&w.seq, 1), 10)
-	oaddr := w.origin.l.Addr().String()
 	if c.Dir == "res" {
 		ex = w.exchange(id, nil, in)
+		fs = w.judgeProxyRes(in, ex)
+		return
+	}
+	ex = w.exchange(id, in, nil)
+	fs = w.judgeProxyReq(in, ex, func() bool { return w.refusedByParser(c) })
+	return
+}
+
+// judgeProxyRes: the origin answered with header in; ex is what the client got.
+func (w *proxyWorld) judgeProxyRes(in http.Header, ex exchangeT) (fs fails) {
+	{
 		if len(ex.Origin) != 1 {
 			fs.add("harness", "plain request reached the origin %d times (outcome %s)", len(ex.Origin), ex.Outcome)
 			return
@@ -1636,15 +1675,19 @@ func (w *proxyWorld) evalProxy(c Case) (fs fails, ex exchangeT) {
 		}
 		return
 	}
+}
 
-	ex = w.exchange(id, in, nil)
+// judgeProxyReq: the client sent header in; ex is what origin and client saw. refused says whether the same
+// message without its Via chain is dropped by net/http's request parser.
+func (w *proxyWorld) judgeProxyReq(in http.Header, ex exchangeT, refused func() bool) (fs fails) {
+	oaddr := w.origin.l.Addr().String()
 	loop := loopAt(in["Via"], w.id)
 	bad := badCL(in["Content-Length"]) || badTE(in["Transfer-Encoding"])
 	if loop != 0 {
 		switch {
 		case len(ex.Origin) > 0:
 			fs.add("loop_sent_upstream", "Via %q names this instance (%s) but the origin received the request (Via there: %q); client got %s %d", in["Via"], w.id.rb, ex.Origin[0].H["Via"], ex.Outcome, ex.Status)
-		case ex.Outcome == "closed_no_response" && w.refusedByParser(c):
+		case ex.Outcome == "closed_no_response" && refused():
 			// the same message without the loop is refused by net/http's request parser too: no modifier ever ran
 		case ex.Outcome != "response" || ex.Status != 400:
 			fs.add("loop_response_not_400", "Via %q names this instance, not sent upstream, but the client got %s %d", in["Via"], ex.Outcome, ex.Status)
@@ -1806,7 +1849,7 @@ func proxyWorker(tier string, shard, n int, start int64, outFile string) {
 func runProxy(rep *lib.Report, tier string) {
 	dir, err := os.MkdirTemp("", "c14-proxy-")
 	if err != nil {
-		rep.Incomplete = "cannot create temp dir: " + err.Error()
+		setIncomplete(rep, "cannot create temp dir: "+err.Error())
 		return
 	}
 	defer os.RemoveAll(dir)
@@ -1817,7 +1860,7 @@ func runProxy(rep *lib.Report, tier string) {
 		descr = append(descr, s.describe())
 		totalCases += s.size()
 	}
-	rep.Coverage["proxy_spaces"] = descr
+	setCov(rep, "proxy_spaces", descr)
 	states := map[string]struct{}{}
 	outcomes := map[string]int64{}
 	var mu sync.Mutex
@@ -1871,9 +1914,7 @@ func runProxy(rep *lib.Report, tier string) {
 				}
 				if perr != nil {
 					rep.Violate("proxy:worker:crash_before_first_case", "worker died before its first case: "+tail, nil)
-					mu.Lock()
-					rep.Incomplete = "a proxy worker could not start"
-					mu.Unlock()
+					setIncomplete(rep, "a proxy worker could not start")
 					return
 				}
 				c := proxyCaseAt(tier, pos)
@@ -1885,15 +1926,13 @@ func runProxy(rep *lib.Report, tier string) {
 				rep.Count("proxy_cases", 1)
 				start = pos + 1
 			}
-			mu.Lock()
-			rep.Incomplete = "a proxy worker crashed more than 50 times"
-			mu.Unlock()
+			setIncomplete(rep, "a proxy worker crashed more than 50 times")
 		}(i)
 	}
 	wg.Wait()
 	rep.Count("proxy_states", int64(len(states)))
-	rep.Coverage["proxy_outcomes"] = outcomes
-	rep.Coverage["proxy_space_size"] = totalCases
+	setCov(rep, "proxy_outcomes", outcomes)
+	setCov(rep, "proxy_space_size", totalCases)
 }
 
 func proxyCaseAt(tier string, pos int64) Case {
@@ -1929,6 +1968,28 @@ func replay(path string) {
 	if err := json.Unmarshal(b, &r); err != nil {
 		fmt.Println("cannot parse replay:", err)
 		os.Exit(2)
+	}
+	auditFamily := ""
+	for _, f := range []string{"hist", "user_group", "multi_instance", "conn_spelling", "framing_spelling", "env", "proxy_seq", "proxy_connect"} {
+		if strings.HasPrefix(r.Sig, f+":") {
+			auditFamily = f
+		}
+	}
+	if part := auditFamily; part != "" {
+		// a case of one of the audit families: the (small) families are re-run in full and the signature looked up
+		fmt.Printf("replaying %s by re-running the audit families\n", r.Sig)
+		scratch := lib.NewReport("C14", "model_checking")
+		if strings.HasPrefix(part, "proxy_") {
+			runProxyExtra(scratch, lib.Tier())
+		} else {
+			runExtra(scratch, "thorough", nil)
+		}
+		if d, ok := extraSigs.Load(r.Sig); ok {
+			fmt.Printf("FAILED %s: %s\n", r.Sig, d)
+			os.Exit(1)
+		}
+		fmt.Println("holds")
+		os.Exit(0)
 	}
 	c := r.First.Replay.Case
 	c.F[fConn] = connIndex(r.First.Replay.ConnLines)
@@ -1987,8 +2048,12 @@ func main() {
 		buildConnLists(3)
 		replay(p)
 	}
-	if i, n := lib.ShardEnv(); n > 0 && os.Getenv("C14_PROXY_WORKER") == "" {
+	if i, n := lib.ShardEnv(); n > 0 && os.Getenv("C14_PROXY_WORKER") == "" && os.Getenv("C14_EXTRA_WORKER") == "" {
 		stackShard(tier, i, n, os.Getenv("VERIF_SHARD_OUT"))
+		return
+	}
+	if os.Getenv("C14_EXTRA_WORKER") != "" {
+		proxyExtraWorker(os.Getenv("C14_OUT"))
 		return
 	}
 	if wk := os.Getenv("C14_PROXY_WORKER"); wk != "" {
@@ -2001,41 +2066,82 @@ func main() {
 	}
 
 	rep := lib.NewReport("C14", "model_checking")
-	t0 := time.Now()
-	if os.Getenv("C14_ONLY") != "proxy" {
-		runStack(rep, tier)
+	// The parts run concurrently (worker processes of the stack part, of the proxy part, the -race build and run,
+	// the audit families): C14_ONLY = stack | proxy | extra | race restricts the run to one of them.
+	only := os.Getenv("C14_ONLY")
+	var wg sync.WaitGroup
+	part := func(name string, f func()) {
+		if only != "" && only != name {
+			return
+		}
+		wg.Add(1)
+		go func() {
+			defer wg.Done()
+			t0 := time.Now()
+			f()
+			setCov(rep, name+"_wall_s", time.Since(t0).Seconds())
+		}()
+	}
+	var race lib.RaceResult
+	raceRan := false
+	part("race", func() {
+		// auxiliary race pass: concurrent messages through one shared stack on the unrewritten tree under -race
+		raceIters := "20"
+		if tier == "thorough" {
+			raceIters = "200"
+		}
+		race = lib.RacePass("c14", "racebodies", "c14", raceIters)
+		raceRan = true
+	})
+	var shardIDs []string
+	stackDone := make(chan struct{})
+	part("stack", func() {
+		defer close(stackDone)
+		shardIDs = runStack(rep, tier)
 		if sw, err := newStackWorld(); err != nil {
-			rep.Incomplete = "managed-listed family: " + err.Error()
+			setIncomplete(rep, "managed-listed family: "+err.Error())
 		} else {
 			runManagedListed(rep, sw)
 		}
+	})
+	if only != "" && only != "stack" {
+		close(stackDone)
 	}
-	rep.Coverage["stack_wall_s"] = time.Since(t0).Seconds()
-	t0 = time.Now()
-	if os.Getenv("C14_ONLY") != "stack" {
-		runProxy(rep, tier)
-	}
-	rep.Coverage["proxy_wall_s"] = time.Since(t0).Seconds()
+	part("extra", func() {
+		runProxyExtra(rep, tier)
+		<-stackDone // the identities of the stack workers' instances take part in the uniqueness check
+		runExtra(rep, tier, shardIDs)
+	})
+	part("proxy", func() { runProxy(rep, tier) })
+	wg.Wait()
 
-	cases := rep.Counter("stack_cases") + rep.Counter("proxy_cases")
-	rep.Coverage["states"] = rep.Counter("stack_states") + rep.Counter("proxy_states")
-	rep.Coverage["transitions"] = rep.Counter("stack_transitions") + rep.Counter("proxy_transitions")
+	cases := rep.Counter("stack_cases") + rep.Counter("proxy_cases") + rep.Counter("extra_cases") + rep.Counter("extra_proxy_cases")
+	rep.Coverage["states"] = rep.Counter("stack_states") + rep.Counter("proxy_states") + rep.Counter("extra_states") + rep.Counter("extra_proxy_states")
+	rep.Coverage["transitions"] = rep.Counter("stack_transitions") + rep.Counter("proxy_transitions") + rep.Counter("extra_transitions") + rep.Counter("extra_proxy_transitions")
 	rep.Coverage["traces_validated_against_impl"] = cases
 	rep.Coverage["evaluations"] = cases + rep.Counter("stack_minimisation_evaluations") + rep.Counter("proxy_minimisation_evaluations")
-	rep.Coverage["distinct_nontrivial"] = rep.Counter("stack_nontrivial")
+	rep.Coverage["distinct_nontrivial"] = rep.Counter("stack_nontrivial") + rep.Counter("extra_nontrivial")
 	rep.Coverage["exhaustive"] = rep.Incomplete == ""
 	rep.Coverage["rule"] = "cases = every tuple of each listed sub-product of the 12 header factors (mixed-radix decode, simplest values first), for requests and " +
 		"responses, each run on httpspec.NewStack with martian.TestContext and compared with the reference model; the proxy sub-products are sent as raw bytes " +
 		"through martian.NewProxy + stack over loopback. distinct_nontrivial counts stack cases not contained in an earlier sub-product of the same direction " +
 		"for which the model demands more than stamping a plain message: a present header that must be removed (fixed or Connection-listed), or pre-existing " +
 		"Via / X-Forwarded-* / Content-Length values that must be kept, a loop that must be refused, or bad framing that must be flagged. states = distinct " +
-		"(direction, set of header names the model removes, classes of Via/X-Forwarded/framing factors[, wire outcome])."
+		"(direction, set of header names the model removes, classes of Via/X-Forwarded/framing factors[, wire outcome]). Audit families (audit_family_cases, " +
+		"audit_proxy_family_cases; every one a full product of explicit pools, all counted as non-trivial because each input carries something the model must act on or two exchanges that must not " +
+		"influence each other): hist = all interleavings of the request / response steps of 2 and 3 exchanges on one stack; user_group = the stack's inner group populated with passive / adding / failing " +
+		"modifiers; multi_instance = all paths of a request through several stack instances, identity uniqueness, SetBoundary; conn_spelling, framing_spelling, env = single messages with spellings, " +
+		"token counts and environments outside the 12 factors; proxy_seq = all sequences of 1..3 exchanges on one keep-alive client connection through the real proxy; proxy_connect = CONNECT requests " +
+		"(direct and through a downstream proxy)."
 	rep.Coverage["bounds"] = fmt.Sprintf("Connection: 0..2 lines, each a comma list of 1..%d tokens of {close, keep-alive, X-Foo, x-foo, ' X-Bar ', ''} (%d configurations); "+
 		"X-Foo {absent, one, two lines}, X-Bar {absent, present}; subsets of 7 fixed hop-by-hop headers (%s); 5 unlisted end-to-end headers always present; "+
 		"%d Via chains (none, foreign one/two/three lines, same pseudonym other boundary, this instance alone/first/last/protocol-name form/second line/second line with comment, and 8 whitespace variants of this instance's entry: HTAB, two SP, SP+HTAB between the fields, HTAB before a comment, OWS around the list separator, at first / middle / last position and on a second line); "+
 		"X-Forwarded-For {absent, one, two lines, two values on one line}, -Proto/-Host/-Url {absent, one, two lines}; Content-Length {none, 5, 5|5, '5, 5', 5|6, '5, 6'}; "+
 		"Transfer-Encoding {none, chunked, 'gzip, chunked', gzip|chunked, gzip, 'chunked, gzip', chunked|gzip}; env = {HTTP/1.1, 1.0} x {ipv4:port, [ipv6]:port, ipv4} x {http URL, https URL with port and query}; "+
-		"sub-products as listed in stack_spaces / proxy_spaces", maxTokens, connCount(), strings.Join(fixedNames, ", "), nVia)
+		"sub-products as listed in stack_spaces / proxy_spaces. Audit families: 7 exchange kinds {plain, loop, loop re-spelled on a later line, foreign chain, Connection-listed, conflicting Content-Length, loop + bad Transfer-Encoding}, "+
+		"pairs x 6 interleavings and triples x 90 interleavings (4 kinds in quick); user modifier behaviours 3 (request) x 6 (response); instances {martian, martian, proxy.example:8080[, martian-1, M]} paths of length <= 3 [4]; "+
+		"8 token spellings x 8 positions, token counts {1,2,7,8,9,10,15,16,17,33,64} x 3 layouts, Connection naming 7 further headers; 15 Content-Length and 24 Transfer-Encoding spellings, 23 empty-line inputs; "+
+		"3 protocol versions x 7 client addresses x 11 URLs; 155 keep-alive sequences; 12 CONNECT cases", maxTokens, connCount(), strings.Join(fixedNames, ", "), nVia)
 	rep.Assumptions = []string{
 		"header keys are canonical (as net/http produces them when parsing a message); the identity (pseudonym-boundary) of the stack's Via modifier is learnt from the Via entry it stamps on a plain probe request",
 		"Proxy-Connection is not a hop-by-hop header fixed by the HTTP specification: the model accepts it removed or kept",
@@ -2043,12 +2149,13 @@ func main() {
 		"flagged as an error = ModifyRequest returns a non-nil error (stack level) / the proxy adds a Warning header to the response (proxy level); a request that net/http's parser refuses before any modifier runs never passed through the stack and is only counted (proxy_outcomes)",
 		"through the proxy the observer's own hop may carry Connection: close/keep-alive, Transfer-Encoding: chunked, Host and the transport's Accept-Encoding (C01's subject); Trailer is not combined with chunked messages in the proxy subset because net/http re-announces forwarded trailers itself",
 		"for a request whose Via names this instance only the loop obligations (error, round trip skipped, 400, origin log empty) are checked; its headers go nowhere",
+		"list elements are compared after trimming SP and HTAB, transfer-coding names case-insensitively (RFC 7230); inputs the statement leaves open (Content-Length 5 vs 05, empty list elements in Content-Length, a trailing comma or an empty line in Transfer-Encoding) are run but their framing verdict is not judged",
+		"a managed header (Via, X-Forwarded-*, Content-Length) that the sender's Connection header names counts as not sent: it must not be forwarded and the stack's own stamp is still due",
+		"hop-by-hop headers a user-group modifier adds to a response must not reach the client (the user group runs before the stack's own response modifiers); what a user-group modifier adds to a request is its own business and not judged",
+		"a CONNECT counts as sent upstream when the target accepts a connection (direct) or the downstream proxy accepts one; 150 ms are allowed for a dial that must not happen to show up",
 	}
-	// auxiliary race pass: concurrent messages through one shared stack on the unrewritten tree under -race
-	raceIters := "20"
-	if lib.Tier() == "thorough" {
-		raceIters = "200"
+	if raceRan {
+		rep.ReportRaces(race)
 	}
-	rep.ReportRaces(lib.RacePass("c14", "racebodies", "c14", raceIters))
 	rep.Finish()
 }
